@@ -47,7 +47,7 @@ func MarshalBinary[T any](t TestingT, cases []CaseBinary[T]) {
 			continue
 		}
 		if c.Error != nil {
-			if c.Error(t, err, failInfo) {
+			if assertError(t, c.Error, err, failInfo) {
 				assert.Nil(t, b, failInfo)
 			}
 		} else {
@@ -85,7 +85,7 @@ func UnmarshalBinary[T any](t TestingT, cases []CaseBinary[T], helper TypeHelper
 			continue
 		}
 		if c.Error != nil {
-			if c.Error(t, err, failInfo) {
+			if assertError(t, c.Error, err, failInfo) {
 				helperAssertEmpty(helper, t, v, failInfo)
 			}
 		} else {
